@@ -706,14 +706,25 @@ static void ht_init_nr_cpus_mask(void)
 static
 void alloc_split_items_count(struct cds_lfht *ht)
 {
-	if (nr_cpus_mask == NR_CPUS_MASK_UNINITIALIZED)	{
-		ht_init_nr_cpus_mask();
+	/*
+	 * Key the one-time initialization on split_count_mask, which is
+	 * written last: another thread creating its first table
+	 * concurrently, or the child of a fork() issued meanwhile, must
+	 * never find nr_cpus_mask initialized but split_count_mask unset.
+	 */
+	if (split_count_mask < 0) {
+		long mask;
+
+		if (nr_cpus_mask == NR_CPUS_MASK_UNINITIALIZED)
+			ht_init_nr_cpus_mask();
 		if (nr_cpus_mask < 0)
-			split_count_mask = DEFAULT_SPLIT_COUNT_MASK;
+			mask = DEFAULT_SPLIT_COUNT_MASK;
 		else
-			split_count_mask = nr_cpus_mask;
+			mask = nr_cpus_mask;
 		split_count_order =
-			cds_lfht_get_count_order_ulong(split_count_mask + 1);
+			cds_lfht_get_count_order_ulong(mask + 1);
+		cmm_smp_wmb();
+		split_count_mask = mask;
 	}
 
 	urcu_posix_assert(split_count_mask >= 0);
